@@ -20,6 +20,7 @@ type thread struct {
 	cond   func() bool
 	what   string
 	locks  []*value // mutexes currently held (lock trace)
+	parent *thread  // thread that spawned this one (gets the baton back first)
 }
 
 type scheduler struct {
@@ -91,6 +92,14 @@ func (s *scheduler) pickOther() *thread {
 		k := s.p.choose(len(cands), "sched")
 		return cands[k]
 	}
+	// deterministic policy: the spawner chain first (run-to-block, then return)
+	for a := s.cur.parent; a != nil; a = a.parent {
+		for _, c := range cands {
+			if c == a {
+				return c
+			}
+		}
+	}
 	return cands[0]
 }
 
@@ -99,6 +108,7 @@ func (s *scheduler) block(cond func() bool, what string) {
 	me := s.cur
 	for !cond() {
 		me.state, me.cond, me.what = 1, cond, what
+		s.p.note("thread %d blocks on %s", me.id, what)
 		t := s.pickOther()
 		if t == nil {
 			me.state = 0
@@ -149,8 +159,9 @@ func (s *scheduler) spawn(fr *frame, pos token.Pos, fn value, args []value) {
 	if len(s.threads) > 64 {
 		panic(unwindFail{"more than 64 goroutines on one path"})
 	}
-	t := &thread{id: len(s.threads), resume: make(chan struct{}, 1), done: make(chan struct{})}
+	t := &thread{id: len(s.threads), resume: make(chan struct{}, 1), done: make(chan struct{}), parent: s.cur}
 	s.threads = append(s.threads, t)
+	s.p.note("thread %d spawned by thread %d", t.id, s.cur.id)
 	i := fr.i
 	go func() {
 		<-t.resume
@@ -161,6 +172,7 @@ func (s *scheduler) spawn(fr *frame, pos token.Pos, fn value, args []value) {
 			if _, isKill := r.(threadKill); isKill || s.killed {
 				return
 			}
+			s.p.note("thread %d finished (panic=%v)", t.id, r != nil)
 			if r != nil {
 				if !isEnginePanic(r) {
 					// a panic escaping a goroutine kills the process
@@ -207,6 +219,11 @@ func pathAbortDeadlock(s *scheduler) interface{} {
 }
 
 func (s *scheduler) pickOtherFrom(me *thread) *thread {
+	for a := me.parent; a != nil; a = a.parent {
+		if s.ready(a) {
+			return a
+		}
+	}
 	for _, t := range s.threads {
 		if t != me && s.ready(t) {
 			return t
